@@ -15,6 +15,7 @@ import Pycdlib.Model.Codec
 import Pycdlib.Model.Susp
 import Pycdlib.Model.Unicode
 import Pycdlib.Model.Udf
+import Pycdlib.Model.Boot
 namespace Pycdlib
 
 def parseCps (s : String) : Option (List Nat) :=
@@ -113,6 +114,25 @@ def dispatchPure (toks : List String) : Option String :=
   | ["fidassign", lens] => do
     let ls ← parseCps lens
     pure (" ".intercalate ((Udf.fidAssign 2048 0 0 ls).map toString) ++ " | " ++ toString (Udf.fidSectors ls))
+  | "eltcat" :: platform :: ents => do
+    let parseEnt : String → Option (Nat × Boot.Entry) := fun t =>
+      match t.splitOn ":" with
+      | [p, b, m, sg, sy, c, r] => do
+        pure (← p.toNat?, { bootable := b = "1", media := ← m.toNat?, loadSeg := ← sg.toNat?, sysType := ← sy.toNat?,
+                            count := ← c.toNat?, rba := ← r.toNat? })
+      | _ => none
+    let es ← ents.mapM parseEnt
+    match es with
+    | [] => none
+    | (_, ini) :: secs =>
+      pure (toHex ((Boot.catalogBytes (← platform.toNat?) ini secs).map fun n => UInt8.ofNat n))
+  | ["bit", pvd, fsec, olen, hx] => do
+    let b ← ofHex hx
+    pure (toHex ((Boot.bootInfoTable (← pvd.toNat?) (← fsec.toNat?) (← olen.toNat?) (b.map (·.toNat))).map fun n => UInt8.ofNat n))
+  | ["eltmedia", media, cnt] => do
+    match Boot.mediaAndCount media (← cnt.toNat?) with
+    | some (m, c) => pure s!"{m} {c}"
+    | none => pure "invalidInput"
   | ["crc16", hx] => do let b ← ofHex hx; pure (toString (crc16 (b.map (·.toNat))))
   | ["crc32", hx] => do let b ← ofHex hx; pure (toString (crc32 (b.map (·.toNat))))
   | ["eltcsum", hx] => do let b ← ofHex hx; pure (toString (elToritoChecksum (b.map (·.toNat))))
